@@ -227,6 +227,12 @@ func (w *verifC14World) step(r *rand.Rand) string {
 }
 
 func verifC14Run(seed int64, steps int, observers bool) (out string, err interface{}) {
+	return verifC14RunMask(seed, steps, observers, 63)
+}
+
+// verifC14RunMask: as verifC14Run, with the observer classes restricted to those in keep (bit 0: module print, bit 1:
+// function print and queries, bits 2..5: block, instruction, terminator and global level)
+func verifC14RunMask(seed int64, steps int, observers bool, keep int) (out string, err interface{}) {
 	defer func() {
 		if e := recover(); e != nil {
 			err = e
@@ -237,7 +243,7 @@ func verifC14Run(seed int64, steps int, observers bool) (out string, err interfa
 	w := &verifC14World{m: NewModule()}
 	for i := 0; i < steps; i++ {
 		w.step(r)
-		mask := ro.Intn(64)
+		mask := ro.Intn(64) & keep
 		if observers {
 			w.observe(ro, mask)
 		}
@@ -279,6 +285,21 @@ func TestVerifC14(t *testing.T) {
 		case plain != obs:
 			fails++
 			fmt.Printf("REPLAY-FAIL history seed=%d steps=%d: final print differs when observers are interleaved\n", s, steps)
+		}
+		// observers below the level of a function (block, instruction, terminator and global printers and queries, none
+		// of which numbers anything) must be invisible in every history -- the known finding about stale IDs concerns
+		// the module and function printers only, and this run keeps it from hiding a regression in the others
+		if e1 == nil {
+			cases++
+			quiet, e3 := verifC14RunMask(s, steps, true, 60)
+			switch {
+			case e3 != nil:
+				fails++
+				fmt.Printf("REPLAY-FAIL history seed=%d steps=%d: observers below function level only: %v\n", s, steps, strings.Split(fmt.Sprint(e3), "\n")[0])
+			case quiet != plain:
+				fails++
+				fmt.Printf("REPLAY-FAIL history seed=%d steps=%d: observers below function level only: final print differs\n", s, steps)
+			}
 		}
 		if h == 3 {
 			fmt.Printf("REPLAY-SAMPLE history seed=%d steps=%d prints %d bytes\n", s, steps, len(plain))
